@@ -26,6 +26,7 @@ LEVEL_TEXT = ("After every event of randomly generated and exhaustively enumerat
 LEVEL_NOTE = "trusted: vmon/refs/hashes_ref.fasthash64 (validated by C11 against the real hash and published vectors)"
 BUDGET = {"quick": 60, "thorough": 300}
 SHARDS = {"quick": 1, "thorough": 16}
+BOUNDSCHECK = True
 SEEDS = [0, 1, 2**32 - 1, 2**32, 2**63, 2**64 - 1]
 
 
